@@ -39,6 +39,17 @@ structure EscapeError where
   escape : List Char
   deriving Repr, DecidableEq
 
+/-- The escape table shared by `parse_string_content` and `string_segments` (the `match` on the
+    character after the backslash): `\"`, `\\`, `\n`, `\r`, `\t`, `\{`; anything else is invalid. -/
+def singleEscape (e : Char) : Option Char :=
+  if e = '"' then some '"'
+  else if e = '\\' then some '\\'
+  else if e = 'n' then some '\n'
+  else if e = 'r' then some '\r'
+  else if e = 't' then some '\t'
+  else if e = '{' then some '{'
+  else none
+
 /-- `parse_string_content`: `offset` is the running byte offset (the code adds `1` for the escaped
     character of a valid escape — they are all ASCII). -/
 def decodeSingleAux (offset : Nat) : List Char → Except EscapeError (List Char)
@@ -48,21 +59,10 @@ def decodeSingleAux (offset : Nat) : List Char → Except EscapeError (List Char
       match rest with
       | [] => .error ⟨offset, 1, ['\\']⟩
       | e :: rest' =>
-        let push (d : Char) : Except EscapeError (List Char) :=
-          match decodeSingleAux (offset + 2) rest' with
-          | .ok out => .ok (d :: out)
-          | .error err => .error err
-        if e = '"' then push '"'
-        else if e = '\\' then push '\\'
-        else if e = 'n' then push '\n'
-        else if e = 'r' then push '\r'
-        else if e = 't' then push '\t'
-        else if e = '{' then push '{'
-        else .error ⟨offset, 2, ['\\', e]⟩
-    else
-      match decodeSingleAux (offset + c.utf8Size) rest with
-      | .ok out => .ok (c :: out)
-      | .error err => .error err
+        match singleEscape e with
+        | some d => (decodeSingleAux (offset + 2) rest').map (d :: ·)
+        | none => .error ⟨offset, 2, ['\\', e]⟩
+    else (decodeSingleAux (offset + c.utf8Size) rest).map (c :: ·)
 
 def decodeSingle (cs : List Char) : Except EscapeError (List Char) := decodeSingleAux 0 cs
 
@@ -79,6 +79,13 @@ inductive SegResult where
   | badEscape
   deriving Repr, DecidableEq
 
+/-- `text.extend_from_slice(d)` before the rest of the scan -/
+def SegResult.push (d : Char) : SegResult → SegResult
+  | .closed t r => .closed (d :: t) r
+  | .hole t r => .hole (d :: t) r
+  | .unterminated => .unterminated
+  | .badEscape => .badEscape
+
 /-- The loop of `string_segments` on the input after the opening quote. -/
 def stringSegments : List Char → SegResult
   | [] => .unterminated
@@ -89,23 +96,10 @@ def stringSegments : List Char → SegResult
       match rest with
       | [] => .unterminated
       | e :: rest' =>
-        let push (d : Char) : SegResult :=
-          match stringSegments rest' with
-          | .closed t r => .closed (d :: t) r
-          | .hole t r => .hole (d :: t) r
-          | other => other
-        if e = '"' then push '"'
-        else if e = '\\' then push '\\'
-        else if e = 'n' then push '\n'
-        else if e = 'r' then push '\r'
-        else if e = 't' then push '\t'
-        else if e = '{' then push '{'
-        else .badEscape
-    else
-      match stringSegments rest with
-      | .closed t r => .closed (c :: t) r
-      | .hole t r => .hole (c :: t) r
-      | other => other
+        match singleEscape e with
+        | some d => (stringSegments rest').push d
+        | none => .badEscape
+    else (stringSegments rest).push c
 
 /-! ### `multiline_dedent` -/
 
@@ -196,6 +190,18 @@ theorem dropHspace_length_le (cs : List Char) : (dropHspace cs).length ≤ cs.le
   | nil => simp [dropHspace]
   | cons c rest ih => simp only [dropHspace]; split <;> simp <;> omega
 
+/-- The escape table of the multi-line forms: the single-line set plus `\s` (a strip-proof space).
+    (`\<newline>`, the line continuation, is handled separately.) -/
+def multiEscape (e : Char) : Option Char :=
+  if e = '"' then some '"'
+  else if e = '\\' then some '\\'
+  else if e = 'n' then some '\n'
+  else if e = 'r' then some '\r'
+  else if e = 't' then some '\t'
+  else if e = 's' then some ' '
+  else if e = '{' then some '{'
+  else none
+
 /-- The escape/strip/continuation pass of `process_multiline_string` over the de-indented text.
     `pending` is the buffered horizontal whitespace (in order). `none` = invalid escape. -/
 def processEscapes (pending : List Char) (cs : List Char) : Option (List Char) :=
@@ -209,14 +215,10 @@ def processEscapes (pending : List Char) (cs : List Char) : Option (List Char) :
       | [] => none
       | e :: rest' =>
         if e = '\n' then (processEscapes [] (dropHspace rest')).map (pending ++ ·)
-        else if e = '"' then (processEscapes [] rest').map (fun o => pending ++ '"' :: o)
-        else if e = '\\' then (processEscapes [] rest').map (fun o => pending ++ '\\' :: o)
-        else if e = 'n' then (processEscapes [] rest').map (fun o => pending ++ '\n' :: o)
-        else if e = 'r' then (processEscapes [] rest').map (fun o => pending ++ '\r' :: o)
-        else if e = 't' then (processEscapes [] rest').map (fun o => pending ++ '\t' :: o)
-        else if e = 's' then (processEscapes [] rest').map (fun o => pending ++ ' ' :: o)
-        else if e = '{' then (processEscapes [] rest').map (fun o => pending ++ '{' :: o)
-        else none
+        else
+          match multiEscape e with
+          | some d => (processEscapes [] rest').map (fun o => pending ++ d :: o)
+          | none => none
     else (processEscapes [] rest).map (fun o => pending ++ c :: o)
 termination_by cs.length
 decreasing_by
@@ -240,33 +242,30 @@ inductive MlSegResult where
   | malformed
   deriving Repr, DecidableEq
 
+/-- prepend decoded text to the result of the rest of the scan -/
+def MlSegResult.prepend (pre : List Char) : MlSegResult → MlSegResult
+  | .text t => .text (pre ++ t)
+  | .hole t rest => .hole (pre ++ t) rest
+  | .malformed => .malformed
+
 /-- The loop of `process_multiline_segments` up to the first hole. -/
 def processSegments (pending : List Char) (cs : List Char) : MlSegResult :=
-  let cons (pre : List Char) (r : MlSegResult) : MlSegResult :=
-    match r with
-    | .text t => .text (pre ++ t)
-    | .hole t rest => .hole (pre ++ t) rest
-    | .malformed => .malformed
   match cs with
   | [] => .text []
   | c :: rest =>
     if c = ' ' || c = '\t' then processSegments (pending ++ [c]) rest
-    else if c = '\n' then cons ['\n'] (processSegments [] rest)
+    else if c = '\n' then (processSegments [] rest).prepend ['\n']
     else if c = '{' then .hole pending (c :: rest)
     else if c = '\\' then
       match rest with
       | [] => .malformed
       | e :: rest' =>
-        if e = '\n' then cons pending (processSegments [] (dropHspace rest'))
-        else if e = '"' then cons (pending ++ ['"']) (processSegments [] rest')
-        else if e = '\\' then cons (pending ++ ['\\']) (processSegments [] rest')
-        else if e = 'n' then cons (pending ++ ['\n']) (processSegments [] rest')
-        else if e = 'r' then cons (pending ++ ['\r']) (processSegments [] rest')
-        else if e = 't' then cons (pending ++ ['\t']) (processSegments [] rest')
-        else if e = 's' then cons (pending ++ [' ']) (processSegments [] rest')
-        else if e = '{' then cons (pending ++ ['{']) (processSegments [] rest')
-        else .malformed
-    else cons (pending ++ [c]) (processSegments [] rest)
+        if e = '\n' then (processSegments [] (dropHspace rest')).prepend pending
+        else
+          match multiEscape e with
+          | some d => (processSegments [] rest').prepend (pending ++ [d])
+          | none => .malformed
+    else (processSegments [] rest).prepend (pending ++ [c])
 termination_by cs.length
 decreasing_by
   all_goals simp_wf
